@@ -108,5 +108,46 @@ func runC14(r *Run, rng *Rng, thorough bool) {
 			r.Fail("state-name", fmt.Sprintf("state code %d prints %q valid=%v", o, s.String(), s.IsValid()))
 		}
 	}
+	// the setters do not depend on what the claims-set already holds: every value, on objects pre-loaded (by field,
+	// as a non-validating decode would) with a value of each of the eight states and with nothing
+	pre := []*uint16{nil, u16p(0x0000), u16p(0x10ff), u16p(0x2080), u16p(0x3000), u16p(0x4001), u16p(0x50fe), u16p(0x6000),
+		u16p(0x0100), u16p(0x7000), u16p(0x8a47), u16p(0xffff)}
+	for pi := 0; pi < 2; pi++ {
+		for _, pv := range pre {
+			bad := 0
+			first := ""
+			for i := 0; i < 65536; i++ {
+				v := uint16(i)
+				dd := ClaimsDesc{P: pi + 1, Canon: canonOf(pi + 1), LC: pv, SwKind: SwNilIface}
+				c := dd.Build()
+				serr := c.SetSecurityLifeCycle(v)
+				want := lcSpec(v) != 7
+				ok := (serr == nil) == want
+				if ok && serr == nil {
+					g, gerr := c.GetSecurityLifeCycle()
+					ok = gerr == nil && g == v
+				}
+				if ok && serr != nil {
+					// unchanged on failure
+					after, _ := DescOf(c)
+					ok = (after.LC == nil) == (pv == nil) && (pv == nil || *after.LC == *pv)
+				}
+				if !ok {
+					bad++
+					if first == "" {
+						first = fmt.Sprintf("0x%04x (setter err=%v, state valid=%v)", v, serr, want)
+					}
+				}
+			}
+			held := "nothing"
+			if pv != nil {
+				held = fmt.Sprintf("0x%04x", *pv)
+			}
+			r.ImplOnly("setter-on-preloaded", false, fmt.Sprintf("profile %d holding %s: SetSecurityLifeCycle over all 65536 values", pi+1, held))
+			if bad > 0 {
+				r.Fail("setter-getter", fmt.Sprintf("profile %d claims-set already holding %s: the setter misjudges %d values, first %s", pi+1, held, bad, first))
+			}
+		}
+	}
 	r.extra["exhaustive"] = true
 }
